@@ -649,7 +649,7 @@ func c13VersionIndex(p *P, r *R) {
 			if !ok || g.Name() != "pollingEventWithVersion" {
 				return
 			}
-			if f.Name() == "init" {
+			if strings.HasPrefix(f.Name(), "init") {
 				return // the initialiser loop is bounded by the array's own length constant
 			}
 			nIdx++
